@@ -30,5 +30,5 @@ Definition src_summary : list N :=
     N.of_nat (List.length gen_guard_unrecognised) ].
 (** STATIC_MAX_LEVEL of a build (with / without debug assertions) with exactly the given tracing features on, from level_filters.rs as read. *)
 Definition src_static_max_of (release : bool) (features : list string) : N :=
-  static_max_of (g_static_max gen_guard) (g_static_release_falls_through gen_guard) release (fun f => existsb (String.eqb f) features).
+  static_max_of (g_static_max gen_guard) (g_static_release_falls_through gen_guard) (g_static_last_wins gen_guard) release (fun f => existsb (String.eqb f) features).
 Definition src_static_max (features : list string) : N := src_static_max_of false features.
